@@ -67,7 +67,7 @@ PROPS: dict[str, dict] = {
         "modules": ["sqlexpr", "itconv"],
         "extra": [_c01_extra],
         "assumptions": ["SQL denotation of the SQLAlchemy builder calls (contracts/sqlexpr.py): integer arithmetic mathematical, two-valued comparisons on NULL-free rows, AND/OR/NOT, BETWEEN inclusive, IN (...), % truncating toward zero; the database evaluates that SQL as stated, no overflow",
-                        "GenericConcreteEngine.get_function(name) is the operator module's function for the portable names",
+                        "stdlib: getattr(operator, name, default) is the operator module's attribute when it has one and the default otherwise; the operator module has every portable name (GenericConcreteEngine.get_function is verified against that)",
                         "law library spec/laws.py incl. the integer laws mod-congruence / desc-range (status per law in coverage.law_library)",
                         "iteration side (contracts/itconv.py): a stored callable applied to a row is modelled as an integer-valued total function of the row (bools as 0/1, literal value objects through lit_int); rows handed to a callable have the columns the expression mentions"],
         "explanation": "sql.Engine.convert_column_expression / convert_predicate: every match arm denotes the expression's value under the stated SQL semantics; iteration.Engine.convert_column_expression / convert_column_container / convert_predicate: the returned closure (the real lambda, executed on the Skolem witness row) computes the expression's / container's / predicate's value -- for all expression trees over the portable operator set and all rows",
@@ -98,8 +98,8 @@ PROPS: dict[str, dict] = {
         "modules": ["processor"],
         "extra": [_c10_extra],
         "assumptions": ["the user's Processor.transfer/materialize hooks return a payload holding the rows of their source (assumed contract; their preconditions are proved at the call sites)",
-                        "Engine.get_join_identity_payload/get_doomed_payload return payloads (true of the sql and iteration engines; the base-class default None is out of scope)",
-                        "spec lemma: readiness of a tree is monotone in the payload heap (induction on the tree, not machine-checked)"],
+                        "Engine.get_join_identity_payload/get_doomed_payload: the iteration engine's implementations are verified from their bodies; the SQL engine's build SQLAlchemy objects (assumed), the base-class default None is out of scope",
+                        "spec lemma 'readiness of a tree is monotone in the payload heap': its induction step (by cases on the node class, from the definitions of ready/extends) and its decreases clause are lemma obligations discharged by z3 in this check; the induction principle over finite relation trees is the meta-step"],
         "explanation": "attach_payload contracts (write-once, rejected attach changes nothing, frame) + AST scan: no other payload write in the library; execute and _process_recursive never replace a payload",
     },
     "C18": {
@@ -125,16 +125,20 @@ PROPS: dict[str, dict] = {
         "closure_depth": 1,  # already the longest-running checks; deeper levels are covered by the checks owning those functions
         "modules": ["processor"],
         "assumptions": ["the user's Processor.transfer/materialize hooks return a payload holding the rows of their source (assumed contract; their preconditions are proved at the call sites)",
-                        "Engine.get_join_identity_payload/get_doomed_payload return payloads (true of the sql and iteration engines; the base-class default None is out of scope)",
+                        "Engine.get_join_identity_payload/get_doomed_payload: the iteration engine's implementations are verified from their bodies; the SQL engine's build SQLAlchemy objects (assumed), the base-class default None is out of scope",
                         "sql.Select.reapply keeps rows/columns/engine/readiness (assumed; subject of C17)",
-                        "spec lemma: readiness of a tree is monotone in the payload heap (induction on the tree, not machine-checked)",
+                        "spec lemma 'readiness of a tree is monotone in the payload heap': its induction step (by cases on the node class, from the definitions of ready/extends) and its decreases clause are lemma obligations discharged by z3 in this check; the induction principle over finite relation trees is the meta-step",
                         "allocation stamps: objects returned by a call were allocated before it returned; leaves always carry payloads; payload cells of unallocated objects are empty",
                         "executing the processed tree in its final engine yields rows(result): iteration engine C01, SQL engine C02 (not claimed)"],
         "explanation": "Processor._process_recursive proved path by path (77 paths, recursion by contract, payload heap as ghost state): same rows/columns/engine, result evaluable by its engine alone, hooks only on self-contained non-trivial sources, payloads never replaced, transfers never gain payloads",
     },
     "C06": {
         "closure_depth": 1,  # already the longest-running checks; deeper levels are covered by the checks owning those functions
-        "modules": ["processor"],
+        # sqlsel: a SQL Select reads its columns / row bounds / flags from ``target`` while what is executed is what its own
+        # attributes record -- the metadata of a Select is truthful exactly if the marker is coherent, so the one construction
+        # site of Select objects (Select.apply_skip, class invariant of C17) is verified here as well (seeded change C06-agent5)
+        "modules": ["processor", "sqlsel"],
+        "extra_keys": ["sql._select:Select.apply_skip"],
         # "... so the short-cuts keyed on them never change a result": the consumers named by the property
         # (execute's short-circuits, Join elision in _begin_apply/_finish_apply, Processor chain pruning)
         "depends": ["C01", "C07"],
@@ -284,7 +288,7 @@ PROPS["C10"].update(
     level_text="MarkerRelation.attach_payload (write-once, frame: only this marker's cell, rejected attach changes nothing) and BaseRelation.attach_payload (always TypeError) are proved; an AST scan proves the only payload write in the library is that statement; "
                "iteration.Engine.execute is proved to return a cached payload without re-evaluation, never to replace a payload, to touch payload cells of this tree only and to leave an executed materialization with a payload; "
                "Processor._process_recursive is proved (all arms) never to replace or clear a payload, to short-circuit on an existing payload, and to leave every processed materialization with a payload -- except through a plain marker (known finding F13).",
-    level_note=_COMMON_NOTE + "Processor hooks and engine payload factories enter as assumed contracts. Known finding F13: a materialization behind a plain marker (every SQL materialization wraps a Select) never receives its payload, so its upstream is evaluated again by every process() call. "
+    level_note=_COMMON_NOTE + "Processor hooks and the SQL engine's payload factories enter as assumed contracts (the iteration engine's payload factories are verified). Known finding F13: a materialization behind a plain marker (every SQL materialization wraps a Select) never receives its payload, so its upstream is evaluated again by every process() call. "
                "One frame obligation of _process_recursive is covered by the bounded stand-in S-C07-frame-rebuilt-materialization (labelled bounded).",
 )
 PROPS["C18"].update(
@@ -306,7 +310,7 @@ PROPS["C07"].update(
     level_text="Processor._process_recursive is proved against a contract over the payload heap (ghost state): the returned tree has the rows, columns and engine of the input; it can be evaluated by its engine alone (every transfer/materialization in it carries a payload or is statically trivial); "
                "the transfer/materialize hooks are invoked only on sources with that property and never for a statically empty or join-identity relation (hook preconditions are obligations at the call sites); no existing payload is replaced, engine-changing transfers of the input never gain one, "
                "only materializations and same-engine markers do, nodes above the processed one are untouched. MarkerRelation.reapply/attach_payload, Engine.materialize, UnaryOperation/BinaryOperation.apply carry the readiness clauses the proof uses.",
-    level_note=_COMMON_NOTE + _LAWS + "Assumed: the hooks' postconditions (payload == rows of the source), engine payload factories return payloads, sql.Select.reapply (C17), monotonicity of readiness in the payload heap (spec lemma by induction, not machine-checked), executing the result gives rows(result) (C01; SQL side C02 not claimed). "
+    level_note=_COMMON_NOTE + _LAWS + "Assumed: the hooks' postconditions (payload == rows of the source), the SQL engine's payload factories return payloads (the iteration engine's are verified), sql.Select.reapply (C17), monotonicity of readiness in the payload heap (spec lemma; induction step discharged by z3 as a lemma obligation), executing the result gives rows(result) (C01; SQL side C02 not claimed). "
                "Bounded, not proved: the frame clause when a re-created materialization resolves to an existing node (stand-in S-C07-frame-rebuilt-materialization, replay/bounded_processor.py, 30000 random trees). Known finding F13 (persisted flag through plain markers). "
                "'Same-engine transfers' (destination == target engine; never built by Engine.transfer) are exempt from the never-gain clause.",
 )
